@@ -405,6 +405,7 @@ func runC14(c *Ctx) {
 	// R5
 	c14Chain(c)
 	c14FlagOnlyWithFreshReply(c)
+	c14ResumeAtAskingFilter(c)
 }
 
 // c14Raises: the function stores true into directResponse and a value into downstreamRespHeaders on every path.
